@@ -495,6 +495,8 @@ func (f *fx) update(v Term, t types.Type, path []PathStep, nv Term) Term {
 	if len(path) == 0 {
 		return nv
 	}
+	// name the old value: rebuilding a struct from accessors of an unnamed term doubles the term per store
+	v = f.sc.define("upd", v)
 	s := path[0]
 	switch u := t.Underlying().(type) {
 	case *types.Struct:
